@@ -6,6 +6,7 @@ bounds, so all integer indices are covered at once); slice expressions are enume
 from the model is classified into a REGION of the index grammar; regions recorded in known_findings.jsonl
 are reported as known, anything else is a violation (after replay on the real class with real NumPy)."""
 import itertools
+import os
 
 import numpy as np
 import z3
@@ -190,7 +191,7 @@ def index_exprs(lengths, tier):
     return ex
 
 
-def build(lengths, cellsrc, form):
+def build(lengths, cellsrc, form, dtype=int):
     """RaggedArray from nested lists or flat+lengths; cellsrc(k) gives the k-th cell"""
     ra = RA()
     rows = []
@@ -199,11 +200,75 @@ def build(lengths, cellsrc, form):
         rows.append([cellsrc(k + j) for j in range(n)])
         k += n
     symbolic = any(isinstance(c, SVal) for r in rows for c in r)
-    mk = (lambda r: funcs.np_array(list(r), dtype=int)) if symbolic else (lambda r: np.array(list(r), dtype=int))
+    mk = (lambda r: funcs.np_array(list(r), dtype=dtype)) if symbolic else (lambda r: np.array(list(r), dtype=dtype))
     if form == 'nested':
         return ra.RaggedArray([mk(r) for r in rows]), rows
     flat = [c for r in rows for c in r]
     return ra.RaggedArray(mk(flat), lengths=list(lengths)), rows
+
+
+def narrow_lengths_job(lengths, dtype):
+    """the row lengths are handed over as a NumPy array of a narrow integer type whose range the total number of elements
+    exceeds (int8 lengths, 150 elements): rows, element reads, starts and flat data still follow the list-of-rows model.
+    Three cells per row are symbolic, the others are their flat position."""
+    lengths = list(lengths)
+    N = sum(lengths)
+    n = len(lengths)
+
+    def path(ctx):
+        ra = RA()
+        starts = [sum(lengths[:t]) for t in range(n)]
+        symk = set()
+        for t in range(n):
+            symk.update({starts[t], starts[t] + lengths[t] // 2, starts[t] + lengths[t] - 1})
+        cellsrc = [core.fresh_int('e') if k in symk else k for k in range(N)]
+        exc = None
+        try:
+            a = ra.RaggedArray(funcs.np_array(cellsrc, dtype=int), lengths=np.array(lengths, dtype=dtype))
+            got_rows = [list(cells(_unlazy(r))) for r in a]
+            st = [x for x in cells(_unlazy(a.starts))]
+            picks = [(t, c) for t in range(n) for c in (0, lengths[t] - 1)]
+            got_el = []
+            for t, c in picks:
+                v = _unlazy(a[t, c])
+                got_el.append(list(cells(v))[0] if isinstance(v, np.ndarray) else v)
+            last = list(cells(_unlazy(a[n - 1])))
+        except Exception as e:
+            if os.environ.get('VERIF_DEBUG'):
+                import traceback
+                traceback.print_exc()
+            exc = e
+
+        def oracle(rows_, starts_, els_, last_, src):
+            exp = [[src[starts[t] + c] for c in range(lengths[t])] for t in range(n)]
+            obs = [('rows-follow-the-lengths', [len(r) for r in rows_] == lengths and conj([x == y for r, e in zip(rows_, exp) for x, y in zip(r, e)])),
+                   ('starts-are-the-running-sums', len(starts_) == n and conj([x == y for x, y in zip(starts_, starts)])),
+                   ('element-reads', conj([g == exp[t][c] for g, (t, c) in zip(els_, [(t, c) for t in range(n) for c in (0, lengths[t] - 1)])])),
+                   ('last-row-read', len(last_) == lengths[-1] and conj([x == y for x, y in zip(last_, exp[-1])]))]
+            return obs
+
+        def witness(model):
+            src = [int(ev(model, c)) if isinstance(c, SVal) else int(c) for c in cellsrc]
+            out = {'inputs': {'lengths': lengths, 'lengths_dtype': str(np.dtype(dtype)), 'symbolic cells': sorted(symk)}, 'skip_compare': True}
+            with core.concrete_mode():
+                try:
+                    a2 = ra.RaggedArray(np.array(src, dtype=int), lengths=np.array(lengths, dtype=dtype))
+                    rows2 = [np.asarray(r).tolist() for r in a2]
+                    st2 = [int(x) for x in np.asarray(a2.starts).tolist()]
+                    el2 = [np.asarray(a2[t, c]).reshape(-1).tolist()[0] for t in range(n) for c in (0, lengths[t] - 1)]
+                    last2 = np.asarray(a2[n - 1]).tolist()
+                except Exception as e:
+                    out.update(out=None, exception=repr(e), violated=['raises ' + type(e).__name__],
+                               signature='narrow-lengths:%s:raises-%s' % (np.dtype(dtype).name, type(e).__name__))
+                    return out
+            out['out'] = {'row lengths': [len(r) for r in rows2], 'starts': st2}
+            out['violated'] = run_oracle(oracle(rows2, st2, el2, last2, src))
+            out['signature'] = 'narrow-lengths:%s:%s' % (np.dtype(dtype).name, '+'.join(out['violated'])[:80])
+            return out
+        if exc is not None:
+            return PathOut([('no-exception', False)], {}, witness, exc=type(exc).__name__, desc='raises %s: %s' % (type(exc).__name__, str(exc)[:80]))
+        return PathOut(oracle(got_rows, st, got_el, last, cellsrc), {}, witness, desc='narrow lengths %s %s' % (lengths, dtype))
+    return path
 
 
 def getitem_job(lengths, form='nested', tier='quick'):
@@ -633,8 +698,11 @@ def observe(a):
         pass
 
 
-def write_job(lengths, op, form='nested', touch=False):
-    """one mutating operation with symbolic operands from an arbitrary constructor-built state (inductive step)"""
+def write_job(lengths, op, form='nested', touch=False, dtype=None):
+    """one mutating operation with symbolic operands from an arbitrary constructor-built state (inductive step).
+    dtype: element type of the array before the write (e.g. 'int16'); the written values are int64 and need not fit it - the
+    list-of-rows model holds them exactly (the library re-concatenates, which promotes)"""
+    adt = np.dtype(dtype) if dtype else np.dtype(int)
     lengths = list(lengths)
     N = sum(lengths)
     n = len(lengths)
@@ -713,9 +781,13 @@ def write_job(lengths, op, form='nested', touch=False):
         return a
 
     def path(ctx):
-        toks = [core.fresh_int('e') for _ in range(N)]
+        if dtype:
+            info = np.iinfo(adt)
+            toks = [core.fresh_int('e', int(info.min), int(info.max)) for _ in range(N)]
+        else:
+            toks = [core.fresh_int('e') for _ in range(N)]
         ops = [core.fresh_int('v') for _ in range(12)]
-        a, rows = build(lengths, lambda k: toks[k], form)
+        a, rows = build(lengths, lambda k: toks[k], form, dtype=adt)
         rows = [list(r) for r in rows]
         exc = None
         try:
@@ -729,10 +801,10 @@ def write_job(lengths, op, form='nested', touch=False):
         def witness(model):
             tv = [int(ev(model, t)) for t in toks]
             ov = [int(ev(model, t)) for t in ops]
-            out = {'inputs': {'lengths': lengths, 'form': form, 'op': repr(op), 'values': tv, 'operands': ov[:4]},
+            out = {'inputs': {'lengths': lengths, 'form': form, 'op': repr(op), 'values': tv, 'operands': ov[:4], 'element_type': str(adt)},
                    'skip_compare': True}
             with core.concrete_mode():
-                a2, rows2 = build(lengths, lambda k: tv[k], form)
+                a2, rows2 = build(lengths, lambda k: tv[k], form, dtype=adt)
                 rows2 = [list(r) for r in rows2]
                 try:
                     if touch:
